@@ -150,12 +150,6 @@ func Compile(input string, ops ...Option) (*vm.Program, error) {
 		return nil, err
 	}
 
-	// Patch operators before Optimize, as we may also mark it as ConstExpr.
-	// The operand types are reliable only if the check succeeded.
-	if err == nil {
-		compiler.PatchOperators(&tree.Node, config)
-	}
-
 	if len(config.Visitors) > 0 {
 		for _, v := range config.Visitors {
 			ast.Walk(&tree.Node, v)
@@ -164,10 +158,12 @@ func Compile(input string, ops ...Option) (*vm.Program, error) {
 		if err != nil {
 			return nil, err
 		}
-		// Operators the visitors introduced, or whose operands they
-		// repaired, are checked as overloaded: compile them as such.
-		compiler.PatchOperators(&tree.Node, config)
 	}
+
+	// Patch operators before Optimize, as we may also mark it as ConstExpr,
+	// and after the visitors and the last check: an operator is compiled as
+	// overloaded exactly when the operand types of the final tree say so.
+	compiler.PatchOperators(&tree.Node, config)
 
 	if config.Optimize {
 		err = optimizer.Optimize(&tree.Node, config)
